@@ -947,7 +947,7 @@ class AnyTarget(object):
 
     def __init__(self, kind, validator, outkind=None):
         import pytz
-        from spyne import Application, Service, rpc, ComplexModel, AnyXml, AnyHtml, AnyDict, Any, DateTime, Date, Time, Unicode, Integer, Array
+        from spyne import Application, Service, rpc, ComplexModel, AnyXml, AnyHtml, AnyDict, Any, DateTime, Date, Time, Unicode, Integer, Array, Iterable
         from spyne.model.complex import XmlAttribute
         from spyne.server import ServerBase
         from spyne.server.wsgi import WsgiApplication
@@ -963,7 +963,8 @@ class AnyTarget(object):
         xmlish = kind in ('xml', 'soap11', 'soap12')
         members = dict(x=AnyXml, h=AnyHtml, d=AnyDict, a=Any, ts=DateTime(serialize_as='sec'), tf=DateTime(serialize_as='sec_float'),
                        tm=DateTime(serialize_as='msec'), tu=DateTime(serialize_as='usec'), tz=DateTime(as_timezone=pytz.utc),
-                       df=Date(date_format='%d.%m.%Y'), dt=DateTime(dt_format='%Y%m%dT%H%M%S'), xs=Array(AnyXml), ds=Array(AnyDict))
+                       df=Date(date_format='%d.%m.%Y'), dt=DateTime(dt_format='%Y%m%dT%H%M%S'), xs=Array(AnyXml), ds=Array(AnyDict),
+                       it=Iterable(Integer), itd=Iterable(Date))
         if xmlish and validator != 'lxml':
             members['ax'] = XmlAttribute(AnyXml)          # (has no valid schema: not with the lxml validator)
         AK = type('AK', (ComplexModel,), dict(members, __namespace__=ns))
@@ -976,6 +977,11 @@ class AnyTarget(object):
             @rpc(AK, AnyXml, AnyDict, _returns=Unicode, **hkw)
             def sink(ctx, k, x, d):
                 T.B.calls.append(('sink', ()))
+                if k is not None:
+                    # (a function that is given iterables iterates them)
+                    for seq in (k.it, k.itd, k.xs, k.ds):
+                        for _ in (seq if seq is not None else ()):
+                            pass
                 return 'ok'
 
             @rpc(AnyXml, _body_style='bare', _returns=Unicode)
@@ -1014,12 +1020,12 @@ class AnyTarget(object):
         kind, ns = self.kind, self.ns
         k = {'x': '<a><b>1</b></a>', 'h': '<p>hi</p>', 'd': {'q': [1, {'r': 's'}]}, 'a': {'any': ['thing', 1]}, 'ts': 1600000000, 'tf': 1600000000.25,
              'tm': 1600000000000, 'tu': 1600000000000000, 'tz': '2020-01-01T00:00:00+02:00', 'df': '31.12.2020', 'dt': '20201231T235959',
-             'xs': ['<i/>', '<j>2</j>'], 'ds': [{'u': 1}]}
+             'xs': ['<i/>', '<j>2</j>'], 'ds': [{'u': 1}], 'it': [1, 22], 'itd': ['2020-02-29']}
         if kind in ('xml', 'soap11', 'soap12'):
             body = ('<t:sink xmlns:t="%s"><t:k ax="&lt;z&gt;1&lt;/z&gt;"><t:x><a><b>1</b></a></t:x><t:h><p>hi</p></t:h><t:d><q>1</q><q><r>s</r></q></t:d>'
                     '<t:a><any>thing</any></t:a><t:ts>1600000000</t:ts><t:tf>1600000000.25</t:tf><t:tm>1600000000000</t:tm><t:tu>1600000000000000</t:tu>'
                     '<t:tz>2020-01-01T00:00:00+02:00</t:tz><t:df>31.12.2020</t:df><t:dt>20201231T235959</t:dt><t:xs><t:anyType><i/></t:anyType></t:xs>'
-                    '<t:ds><t:anyType><u>1</u></t:anyType></t:ds></t:k><t:x><b/></t:x><t:d><w>1</w></t:d></t:sink>' % ns)
+                    '<t:ds><t:anyType><u>1</u></t:anyType></t:ds><t:it><t:integer>1</t:integer><t:integer>22</t:integer></t:it><t:itd><t:date>2020-02-29</t:date></t:itd></t:k><t:x><b/></t:x><t:d><w>1</w></t:d></t:sink>' % ns)
             if 'ax=' in body and not hasattr(self, 'conf') and self.wsgi.app.in_protocol.validator is not None and False:
                 pass
             from lxml import etree as _et
@@ -1039,7 +1045,7 @@ class AnyTarget(object):
             return out
         if kind == 'httprpc':
             pairs = [('k.x', k['x']), ('k.h', k['h']), ('k.ts', '1600000000'), ('k.tf', '1600000000.25'), ('k.tm', '1600000000000'), ('k.tu', '1600000000000000'),
-                     ('k.tz', k['tz']), ('k.df', k['df']), ('k.dt', k['dt']), ('k.xs[0]', '<i/>'), ('x', '<b/>')]
+                     ('k.tz', k['tz']), ('k.df', k['df']), ('k.dt', k['dt']), ('k.xs[0]', '<i/>'), ('k.it[0]', '1'), ('k.it[1]', '22'), ('k.itd[0]', '2020-02-29'), ('x', '<b/>')]
             return [(('/sink', pairs), pairs)]
         docs = [{'sink': {'k': k, 'x': '<b/>', 'd': {'w': 1}}}, {'bare_xml': '<a><b>1</b></a>'}, {'bare_dict': {'q': [1]}}]
         if kind == 'msgpackrpc':
